@@ -202,6 +202,26 @@ def envelope(work):
     return results
 
 
+def stmts(work):
+    """C02 / XformStmts.tla: the events of a tuple with-target in another order, a store into the holder object that did not happen"""
+    import os
+    cases = [{"id": 1, "st": {"s": "with", "k": 3, "t": {"t": "tuple", "elts": [{"t": "name", "v": "b"}, {"t": "name", "v": "a"}]}}, "I": ["a", "b"]},
+             {"id": 2, "st": {"s": "for", "t": {"t": "tuple", "elts": [{"t": "name", "v": "a"}, {"t": "attr", "v": "o", "a": "p"}]}}, "I": ["*"]}]
+    cin, cout = os.path.join(work, "stc.json"), os.path.join(work, "sto.json")
+    json.dump(cases, open(cin, "w"))
+    core.run_driver("harness.drivers.stmt_driver", [cin, cout, work])
+    r = core.run_tlc("TraceXformStmts", "TraceXformStmts.cfg", env={"TRACE_FILE": cout}, workers=1, timeout=300)
+    results = [("TraceXformStmts accepts real for / with statements", not r.tagged("FAIL") and not r.error)]
+    t = json.load(open(cout))
+    t[0]["events"].reverse()
+    t[1]["stores"].append(["setattr", "V.0"])
+    json.dump(t, open(cout, "w"))
+    r = core.run_tlc("TraceXformStmts", "TraceXformStmts.cfg", env={"TRACE_FILE": cout}, workers=1, timeout=300)
+    got = {(x[1], x[2], x[3]) for x in r.tagged("FAIL")}
+    results.append(("TraceXformStmts rejects events in another order and an extra store", got == {(1, "StmtStream", 1), (2, "StmtStores", 2)}))
+    return results
+
+
 def main():
     work = core.scratch("selftest-")
     results = []
@@ -215,6 +235,7 @@ def main():
         results += staged(work)
         results += stream(work)
         results += envelope(work)
+        results += stmts(work)
     finally:
         core.cleanup()
     ok = True
